@@ -151,6 +151,7 @@ func (s *shimClient) close(id string) (int, error) {
 type wsSession struct {
 	mu       sync.Mutex
 	Path     string
+	Host     string // Host of the handshake request
 	Header   http.Header
 	Recv     []wsMsg
 	Closed   bool // read loop ended
@@ -204,7 +205,7 @@ func startWSBackend(w *World) *wsBackend {
 	wb := &wsBackend{}
 	wb.rb = startRecordingBackend(w)
 	wb.rb.OnWS = func(c *websocket.Conn, r *http.Request) {
-		s := &wsSession{Path: r.URL.RequestURI(), Header: r.Header.Clone(), conn: c}
+		s := &wsSession{Path: r.URL.RequestURI(), Host: r.Host, Header: r.Header.Clone(), conn: c}
 		wb.mu.Lock()
 		wb.Sessions = append(wb.Sessions, s)
 		on := wb.OnOpen
